@@ -1,6 +1,6 @@
 /-
 Bridge lemmas for translator T-f: `PartialJoin.columns_required`, `PartialJoin.commute`,
-`Materialization.simplify`, `Transfer.simplify`, `Chain._begin_apply`, `Join._begin_apply` and `PartialJoin._begin_apply`, as regenerated from the
+`Materialization.simplify`, `Transfer.simplify`, `Chain._begin_apply`, `Join._begin_apply`, `Join._finish_apply` and `PartialJoin._begin_apply`, as regenerated from the
 current source (Gen/RelOps.lean), are the model's definitions.
 -/
 import DafRel.Gen.RelOps
@@ -55,6 +55,16 @@ theorem Join_begin_apply_eq (j : JoinOp) (l r : Rel) : Gen.Join_begin_apply j l 
       cases hc : j.commonColumns with
       | error e => rfl
       | ok c => rfl
+
+/-- `Join._finish_apply(lhs, rhs)`, as regenerated, is the model's `binaryFinishApply (.join j)`. -/
+theorem Join_finish_apply_eq (j : JoinOp) (l r : Rel) :
+    Gen.Join_finish_apply j l r = binaryFinishApply (.join j) l r := by
+  unfold Gen.Join_finish_apply binaryFinishApply
+  by_cases ht : (j.pred.asTrivial == some true) = true
+  · by_cases h1 : l.isJoinIdentity = true
+    · simp [ht, h1]
+    · by_cases h2 : r.isJoinIdentity = true <;> simp [ht, h1, h2]
+  · simp [ht]
 
 theorem Materialization_simplify_eq : (t : Rel) → Gen.Materialization_simplify t = matSimplify t
   | .leaf .. => by simp [Gen.Materialization_simplify, matSimplify]
